@@ -3311,7 +3311,7 @@ static Node *primary(Token **rest, Token *tok) {
 
     if (is_integer(ty) || ty->kind == TY_PTR)
       return new_num(0, start);
-    if (is_flonum(ty))
+    if (ty->kind == TY_FLOAT || ty->kind == TY_DOUBLE)
       return new_num(1, start);
 
     // A struct or union of at most 16 bytes is passed in registers:
